@@ -325,6 +325,17 @@ Proof.
   destruct (pad_cases m) as [[_ E]|[_ E]]; rewrite E, firstn_app, Nat.sub_diag, firstn_all, firstn_O, app_nil_r; reflexivity.
 Qed.
 
+(* the padding appended to m: the domain byte 0x01 ... the final bit 0x80 (one byte 0x81 when they fall together) *)
+Theorem pad_shape m : exists s, pad m = m ++ s /\
+  (s = [x81] \/ exists k, s = x01 :: repeat x00 k ++ [x80]) /\ (1 <= length s <= rate)%nat.
+Proof.
+  pose proof (pad_q_range m) as Hq.
+  destruct (pad_cases m) as [[Hq1 E]|[Hq2 E]].
+  - exists [x81]. split; [exact E|]. split; [left; reflexivity|cbn [length]; lia].
+  - exists (x01 :: repeat x00 (pad_q m - 2) ++ [x80]). split; [exact E|]. split; [right; eexists; reflexivity|].
+    cbn [length]. rewrite app_length, repeat_length. cbn [length]. lia.
+Qed.
+
 Lemma rev_repeat_byte (b : byte) n : rev (repeat b n) = repeat b n.
 Proof.
   induction n as [|n IH]; [reflexivity|]. cbn [repeat rev]. rewrite IH. symmetry. apply repeat_cons.
